@@ -23,6 +23,8 @@ func main() {
 		cmdSelfcheck()
 	case "det":
 		cmdDet(os.Args[2:])
+	case "lint":
+		cmdLint(os.Args[2:])
 	default:
 		fmt.Fprintln(os.Stderr, "unknown subcommand")
 		os.Exit(2)
@@ -168,4 +170,43 @@ func cmdDet(args []string) {
 	for _, o := range eng.detAnalysis(strings.Split(*pats, ",")) {
 		fmt.Printf("%-7s %s  %s\n      %s\n", o.Status, o.Name, o.Pos, o.Detail)
 	}
+}
+
+// lint: developer command — contracts in the repository's contract files that match no function of their package
+// (a misspelt name is a contract that is silently never checked).
+func cmdLint(args []string) {
+	fs := flag.NewFlagSet("lint", flag.ExitOnError)
+	pkgs := fs.String("pkgs", "./pkg/...,./cmd/...", "packages")
+	fs.Parse(args)
+	eng, err := LoadEngine("/repo", strings.Split(*pkgs, ","), "/verif/specs")
+	if err != nil {
+		fmt.Fprintln(os.Stderr, err)
+		os.Exit(2)
+	}
+	used := map[*FuncContract]bool{}
+	for p := range eng.spkgs {
+		if !strings.HasPrefix(p, modulePath) {
+			continue
+		}
+		for _, fn := range eng.allFunctions(p) {
+			if ct := eng.contractFor(fn); ct != nil {
+				used[ct] = true
+			}
+		}
+	}
+	var names []string
+	for k, ct := range eng.contracts.Funcs {
+		if ct.PkgPath == "" || used[ct] || ct.mergedWild || strings.Contains(ct.Name, "%") || strings.HasPrefix(ct.Name, "iface:") || strings.Contains(ct.Name, "/") || strings.HasPrefix(ct.Name, "lemma.") {
+			continue
+		}
+		if _, loaded := eng.spkgs[ct.PkgPath]; !loaded {
+			continue
+		}
+		names = append(names, k)
+	}
+	sort.Strings(names)
+	for _, n := range names {
+		fmt.Println("contract matches no function:", n)
+	}
+	fmt.Printf("%d unmatched\n", len(names))
 }
